@@ -120,10 +120,10 @@ Proof.
     split; intros Hx; [discriminate|]. specialize (Hme Hx). discriminate.
 Qed.
 
-Lemma hh_add_hybrid_wf s pe id po gs gh pt mac efi g :
-  hwf s -> hwf (fst (hstep_add_hybrid s pe id po gs gh pt mac efi g)).
+Lemma hh_add_hybrid_wf fp s pe id po gs gh pt mac efi g :
+  hwf s -> hwf (fst (hstep_add_hybrid_gen fp s pe id po gs gh pt mac efi g)).
 Proof.
-  intros Hs. unfold hstep_add_hybrid.
+  intros Hs. unfold hstep_add_hybrid_gen.
   destruct (bboot (hb s)) as [b|]; [|exact Hs].
   destruct (negb _); [exact Hs|].
   destruct (match efi with Some e => if negb e && mac then None else Some e | None => Some mac end)
@@ -131,8 +131,10 @@ Proof.
   assert (Hme : mac = true -> e = true).
   { intros ->. destruct efi as [[|]|]; cbn in Ee; congruence. }
   destruct (e && _); [exact Hs|]. destruct (mac && _); [exact Hs|].
+  destruct (fp && _); [exact Hs|].
   destruct (binos b) as [|i r]; [exact Hs|].
   destruct (negb (AccountBoot.mem i (hsigs s))); [exact Hs|].
+  destruct (fp && _); [exact Hs|].
   destruct (hy_new _ _ _ _ _ _ _ _ _ _) as [y|] eqn:En; [|exact Hs].
   cbn [fst]. unfold hwf, with_hyb. cbn [hhyb]. eapply hh_new_wf; eassumption.
 Qed.
